@@ -76,14 +76,17 @@ def src(t):
             if p[0] == "lit":
                 out.append(p[1].replace("{", "{{").replace("}", "}}"))
             else:
-                out.append("{%s%s}" % (atom(p[1]), "!" + p[2] if p[2] else ""))
+                inner = atom(p[1])
+                if inner.startswith("{"):
+                    inner = " " + inner                      # "{{" would be an escaped brace
+                out.append("{%s%s}" % (inner, "!" + p[2] if p[2] else ""))
         return 'f"%s"' % "".join(out)
     if k == "list":
         return "[%s]" % ", ".join(src(e) for e in t[1])
     if k == "tuple":
         return "(%s%s)" % (", ".join(src(e) for e in t[1]), "," if len(t[1]) == 1 else "")
     if k == "dict":
-        return "{%s}" % ", ".join("%s: %s" % (src(a), src(b)) for a, b in t[1])
+        return "{%s}" % ", ".join(("**" + atom(b)) if a is None else "%s: %s" % (src(a), src(b)) for a, b in t[1])
     if k == "comp":
         inside = comp_inside(t)
         return {"list": "[%s]", "gen": "(%s)", "dict": "{%s}"}[t[1]] % inside
@@ -156,7 +159,7 @@ def subexprs(t):
         return out
     if k == "dict":
         for a, b in t[1]:
-            out += subexprs(a) + subexprs(b)
+            out += (subexprs(a) if a is not None else []) + subexprs(b)
         return out
     if k == "comp":
         out += subexprs(t[2]) + subexprs(t[3] or ["omit"])
@@ -214,7 +217,7 @@ def children(t):
     if k in ("list", "tuple"):
         return list(t[1])
     if k == "dict":
-        return [x for a, b in t[1] for x in (a, b)]
+        return [x for a, b in t[1] for x in (a, b) if x is not None]
     if k == "comp":
         out = [t[2]] + ([t[3]] if t[3] is not None else [])
         for _n, _t, it, ifs in t[4]:
@@ -281,7 +284,7 @@ def _from_ast(n, pairs):
     if isinstance(n, ast.Tuple):
         return ["tuple", [f(e) for e in n.elts]]
     if isinstance(n, ast.Dict):
-        return ["dict", [[f(k), f(v)] for k, v in zip(n.keys, n.values)]]
+        return ["dict", [[f(k) if k is not None else None, f(v)] for k, v in zip(n.keys, n.values)]]
     if isinstance(n, (ast.ListComp, ast.GeneratorExp, ast.DictComp)):
         gens = []
         for g in n.generators:
@@ -396,7 +399,7 @@ def cq(t):
     if k == "dict":
         ds = "DNil"
         for a, b in reversed(t[1]):
-            ds = "(DCons %s %s %s)" % (cq(a), cq(b), ds)
+            ds = "(DStar %s %s)" % (cq(b), ds) if a is None else "(DCons %s %s %s)" % (cq(a), cq(b), ds)
         return "(EDict %s)" % ds
     if k == "comp":
         gs = "GNil"
